@@ -385,7 +385,27 @@ def once_each(ctx, facts, rule):
             # external iteration: `for record in spans { out.push(convert_one(record)) }` -- one push per element taken
             nx = [b for b in conv.calls_re(r"Iterator>?::next$", cleanup=False) if conv.on_cycle(b)]
             ps = [b for b in conv.calls_re(r"alloc::vec::Vec::<T, A>::push$", cleanup=False) if conv.on_cycle(b)]
-            from_param = bool(nx) and all(any(x.kind == "param" and x.key == 2 for x in prov.of_operand(conv, conv.term(b)["args"][0])) for b in nx)
+            # the loop over the records themselves (inner loops over one record's properties / events do not count), and the pushes
+            # onto the vector that is returned
+            nx = [b for b in nx if any(x.kind == "param" and x.key == 2 and not [q for q in x.path if q != "*"]
+                                       for x in prov.of_operand(conv, conv.term(b)["args"][0]))]
+            ret_locals, grew = {0}, True
+            while grew:
+                grew = False
+                for blk in conv.blocks:
+                    for st in blk["stmts"]:
+                        if st["k"] == "assign" and not st["lhs"]["p"] and st["lhs"]["l"] in ret_locals and st["rv"]["k"] == "use" \
+                                and st["rv"]["op"]["k"] in ("copy", "move") and not st["rv"]["op"]["p"] and st["rv"]["op"]["l"] not in ret_locals:
+                            ret_locals.add(st["rv"]["op"]["l"])
+                            grew = True
+
+            def onto_result(b):
+                a0 = conv.term(b)["args"][0]
+                sd = conv.single_def(a0["l"]) if a0["k"] in ("copy", "move") and not a0["p"] else None
+                return bool(sd) and sd[1] != "term" and sd[2]["k"] == "assign" and sd[2]["rv"]["k"] == "ref" and sd[2]["rv"]["place"]["l"] in ret_locals
+            ps_out = [b for b in ps if onto_result(b)]
+            ps = ps_out or ps
+            from_param = bool(nx)
             if len(nx) == 1 and ps and from_param:
                 some = set()
                 for sb in result_switches(conv, nx[0]):
